@@ -17,6 +17,7 @@ class Atoms:
         self.ctx = ctx
         self.classes = []  # (representative term, z3 Bool)
         self.queries = 0
+        self.failed_eqs = []  # numeric identifications that were refuted
 
     def _nums_equal(self, ca, cb):
         if len(ca) != len(cb):
@@ -31,6 +32,8 @@ class Atoms:
             return True
         self.queries += 1
         verdict, _ = self.ctx.valid(z3.And(*eqs))
+        if verdict == "invalid" and len(self.failed_eqs) < 40:
+            self.failed_eqs.append(z3.And(*eqs))
         return verdict == "valid"
 
     _coords_equal = _nums_equal
@@ -44,6 +47,10 @@ class Atoms:
         if a is b or a.key == b.key:
             return True
         if a.kind != b.kind:
+            # a transform that is provably the identity under the path condition
+            for x, y in ((a, b), (b, a)):
+                if x.kind == "xf" and self._nums_equal(list(x.args[1]), [1, 0, 0, 1, 0, 0]):
+                    return self.same(x.args[0], y)
             return False
         if a.kind == "empty":
             return True
